@@ -88,9 +88,23 @@ func checkC19(c *Ctx) {
 	}
 
 	// ---- ambiguity sites: calls of the error constructor that takes two patterns
+	// the internal pattern record, by shape: a struct of the package that embeds
+	// an Opcode value (whatever the record is called)
 	isPattern := func(t types.Type) bool {
 		n, ok := t.(*types.Named)
-		return ok && n.Obj().Name() == "opcode" && n.Obj().Pkg() != nil && n.Obj().Pkg().Path() == opkg
+		if !ok || n.Obj().Pkg() == nil || n.Obj().Pkg().Path() != opkg {
+			return false
+		}
+		st, ok := n.Underlying().(*types.Struct)
+		if !ok {
+			return false
+		}
+		for i := 0; i < st.NumFields(); i++ {
+			if fn, ok := st.Field(i).Type().(*types.Named); ok && fn.Obj().Name() == "Opcode" && fn.Obj().Pkg() != nil && fn.Obj().Pkg().Path() == opkg {
+				return true
+			}
+		}
+		return false
 	}
 	nSites := 0
 	for _, fn := range fns {
@@ -617,8 +631,21 @@ func orderAtoms(lt, eq *ssa.Function, cls func(ssa.Value) string, rel int) func(
 func checkMatchInstruction(c *Ctx, opkg string, enter func(*ssa.Function) bool, lt, eq *ssa.Function) {
 	var mi *ssa.Function
 	for _, fn := range c.Prog.Funcs() {
-		if o := Origin(fn); PkgPathOf(fn) == opkg && o != nil && o.Blocks != nil && o.Parent() == nil && NameOf(o) == "matchInstruction" {
-			mi = o // (a generic method may be listed only through its instances)
+		// by role: the function of the package that is given a byte string and
+		// answers with (pattern, found) - (a generic method may be listed only
+		// through its instances)
+		if o := Origin(fn); PkgPathOf(fn) == opkg && o != nil && o.Blocks != nil && o.Parent() == nil && o.Signature.Results().Len() == 2 {
+			r0, isN := o.Signature.Results().At(0).Type().(*types.Named)
+			r1, isB := o.Signature.Results().At(1).Type().Underlying().(*types.Basic)
+			takesBytes := false
+			for _, p := range o.Params {
+				if isByteSliceT(p.Type()) {
+					takesBytes = true
+				}
+			}
+			if isN && isB && r1.Kind() == types.Bool && r0.Obj().Pkg() != nil && r0.Obj().Pkg().Path() == opkg && takesBytes {
+				mi = o
+			}
 		}
 	}
 	if mi == nil || mi.Blocks == nil {
